@@ -41,7 +41,13 @@ func (t *tr) resolveCall(c *ast.CallExpr) *callTarget {
 			return &callTarget{key: funcKey(o), sig: o.Type().(*types.Signature), fn: o}
 		case *types.Var:
 			sig, _ := o.Type().Underlying().(*types.Signature)
-			return &callTarget{key: "fv:" + t.rootKey() + "." + o.Name(), sig: sig}
+			ct := &callTarget{key: "fv:" + t.rootKey() + "." + o.Name(), sig: sig}
+			// a local bound exactly once to a function literal (x := func...) and never reassigned: the call can
+			// be inlined when there is no contract for it
+			if lit := t.soleLit(o); lit != nil {
+				ct.lit = lit
+			}
+			return ct
 		}
 	case *ast.SelectorExpr:
 		if sl, ok := t.info.Selections[f]; ok {
@@ -79,6 +85,63 @@ func (t *tr) resolveCall(c *ast.CallExpr) *callTarget {
 	case *ast.FuncLit:
 		sig, _ := t.typeOf(f).(*types.Signature)
 		return &callTarget{key: fmt.Sprintf("%s$%d", t.rootKey(), t.litIndex(f)), sig: sig, lit: f}
+	}
+	return nil
+}
+
+// soleLit returns the function literal a local variable is bound to, if that is its only definition in the unit.
+func (t *tr) soleLit(o *types.Var) *ast.FuncLit {
+	if o.Pkg() == nil || o.Parent() == o.Pkg().Scope() || o.IsField() {
+		return nil
+	}
+	root := t.u
+	for root.Outer != nil {
+		root = root.Outer
+	}
+	if root.Body == nil {
+		return nil
+	}
+	var lit *ast.FuncLit
+	n := 0
+	ast.Inspect(root.Body, func(nd ast.Node) bool {
+		switch x := nd.(type) {
+		case *ast.AssignStmt:
+			for i, l := range x.Lhs {
+				id, ok := l.(*ast.Ident)
+				if !ok || t.info.ObjectOf(id) != o {
+					continue
+				}
+				n++
+				if len(x.Lhs) == len(x.Rhs) {
+					if fl, ok := ast.Unparen(x.Rhs[i]).(*ast.FuncLit); ok {
+						lit = fl
+					}
+				}
+			}
+		case *ast.ValueSpec:
+			for i, id := range x.Names {
+				if t.info.ObjectOf(id) != o {
+					continue
+				}
+				n++
+				if i < len(x.Values) {
+					if fl, ok := ast.Unparen(x.Values[i]).(*ast.FuncLit); ok {
+						lit = fl
+					}
+				}
+			}
+		case *ast.UnaryExpr:
+			if x.Op == token.AND {
+				if id, ok := ast.Unparen(x.X).(*ast.Ident); ok && t.info.ObjectOf(id) == o {
+					n += 2 // address taken: may be reassigned through the pointer
+				}
+			}
+		case *ast.IncDecStmt, *ast.RangeStmt:
+		}
+		return true
+	})
+	if n == 1 {
+		return lit
 	}
 	return nil
 }
@@ -459,7 +522,7 @@ func (t *tr) applyContract(con *Contract, ct *callTarget, haveRecv bool, recv Te
 		if t.mayPanicOut() && len(t.guard) == 0 {
 			bt, bf := t.branch(pc)
 			t.cur = bt
-			t.panicExit(pos)
+			t.calleePanics(con, sc, pre, vars, pos)
 			t.cur = bf
 		} else {
 			t.assert(not(pc), "nopanic/"+short, "", pos, "callee "+ct.key+" must not panic here")
@@ -471,7 +534,7 @@ func (t *tr) applyContract(con *Contract, ct *callTarget, haveRecv bool, recv Te
 		} else if t.mayPanicOut() {
 			bs := t.fork(2)
 			t.cur = bs[0]
-			t.panicExit(pos)
+			t.calleePanics(con, sc, pre, vars, pos)
 			t.cur = bs[1]
 		} else {
 			t.assert(tFalse, "nopanic/"+short, "", pos, "callee "+ct.key+" may panic and the panic is not contained")
@@ -517,6 +580,31 @@ func (t *tr) applyContract(con *Contract, ct *callTarget, haveRecv bool, recv Te
 		t.V.note("ghost_ensures on " + con.Key + ": call-history instrumentation (call counter / last result), assumed at call sites")
 	}
 	return res
+}
+
+// calleePanics is the panic exit of a call: the callee's frame is havoc'd (it may have run arbitrarily far before
+// panicking), the panic value is unknown except for what the callee's panic_ensures / always_ensures say about it
+// (`panicval` in those clauses), and control leaves through the caller's panic exit.
+func (t *tr) calleePanics(con *Contract, sc *specCtx, pre Env, vars map[string]Term, pos token.Pos) {
+	t.havocModifies(con, sc, pre, pos)
+	pv := t.fresh(t.panicVal)
+	t.assume(neq(pv, intLit(0)))
+	vars2 := map[string]Term{}
+	for k, v := range vars {
+		vars2[k] = v
+	}
+	vars2["panicval"] = pv
+	sc2 := &specCtx{pkg: sc.pkg, vars: vars2, cur: t.cur.Env, old: pre, where: con.File, qn: sc.qn}
+	for _, kind := range []string{"panic_ensures", "always_ensures"} {
+		for _, cl := range con.clauses(kind) {
+			if strings.Contains(cl.Text, "at_loop(") {
+				continue
+			}
+			sc2.where = cl.Where
+			t.assume(t.spec(cl.Expr, sc2))
+		}
+	}
+	t.panicExit(pos)
 }
 
 func lastName(key string) string {
@@ -901,7 +989,10 @@ func (t *tr) evBuiltin(name string, c *ast.CallExpr) []Term {
 		W.declFun("chancap", []string{SInt}, SInt)
 		return one(app("chancap", SInt, a))
 	case "panic":
-		t.ev(c.Args[0])
+		pvv := t.evTo(c.Args[0], types.NewInterfaceType(nil, nil))
+		if t.cur != nil {
+			t.assign(t.panicVal, pvv)
+		}
 		if t.mayPanicOut() {
 			t.panicExit(c.Pos())
 		} else {
